@@ -12,8 +12,8 @@
 //	   panic, and must not take the checker down)
 //
 // Oracle, per (text, context): no panic; exactly one of (model != nil, err == nil) and (err != nil); an accepted model is
-// complete, i.e. the project's own emitter can write it (a model the emitter refuses is "partially built"); blank-only texts are
-// rejected. Boundedness: for each family the ratios t(2n)/t(n) and alloc(2n)/alloc(n) of the three largest sizes stay below 16
+// complete, i.e. the project's own emitter can write it and writes something (a model the emitter refuses, or writes as the empty
+// text, is "partially built"); blank-only texts are rejected. Boundedness: for each family the ratios t(2n)/t(n) and alloc(2n)/alloc(n) of the three largest sizes stay below 16
 // (polynomial of degree < 4); the time ratio is only looked at when t(n) > 50 ms and is the minimum over 5 repetitions; the
 // allocation ratio is deterministic. A family that runs into the per-input deadline makes the run non-exhaustive, not failing.
 package main
@@ -26,6 +26,7 @@ import (
 	"runtime"
 	"runtime/debug"
 	"strings"
+	"sync"
 	"time"
 
 	"github.com/specterops/dawgs/cypher/frontend"
@@ -115,10 +116,12 @@ func judge(a artefact, o outcome, blankOnly bool) *core.Violation {
 			cls = "panic-index-out-of-range"
 		}
 		return &core.Violation{Class: cls, Summary: fmt.Sprintf("ParseCypher(%s, %s) panicked: %s", a.Context, q, short(o.Panic, 200)), Artefact: a}
+	case o.Err == "" && blankOnly:
+		return &core.Violation{Class: "blank-input-accepted", Summary: fmt.Sprintf("ParseCypher(%s, %s): blank-only input was not rejected (model nil: %v)", a.Context, q, o.ModelNil), Artefact: a}
 	case o.Err == "" && o.ModelNil:
 		return &core.Violation{Class: "nil-model-and-nil-error", Summary: fmt.Sprintf("ParseCypher(%s, %s) returned (nil, nil)", a.Context, q), Artefact: a}
-	case o.Err == "" && blankOnly:
-		return &core.Violation{Class: "blank-input-accepted", Summary: fmt.Sprintf("ParseCypher(%s, %s): blank-only input was accepted", a.Context, q), Artefact: a}
+	case o.Err == "" && o.EmitErr == "" && strings.TrimSpace(o.Emitted) == "":
+		return &core.Violation{Class: "partial-model-emits-nothing", Summary: fmt.Sprintf("ParseCypher(%s, %s) returned a model and no error, but the model is empty: the project's emitter writes it as \"\"", a.Context, q), Artefact: a}
 	case o.Err == "" && o.EmitErr != "":
 		cls := "partial-model-without-error"
 		switch {
@@ -126,6 +129,10 @@ func judge(a artefact, o outcome, blankOnly bool) *core.Violation {
 			cls = "partial-model-empty-reading-clause"
 		case strings.Contains(o.EmitErr, "unsupported updating clause type"):
 			cls = "partial-model-empty-updating-clause"
+		case strings.Contains(o.EmitErr, "<nil>"):
+			cls = "partial-model-nil-expression"
+		case strings.Contains(o.EmitErr, "emitter panicked"):
+			cls = "partial-model-emitter-panics"
 		}
 		return &core.Violation{Class: cls, Summary: fmt.Sprintf("ParseCypher(%s, %s) returned a model and no error, but the model is incomplete: the project's emitter refuses it (%s)", a.Context, q, short(o.EmitErr, 160)), Artefact: a}
 	}
@@ -403,7 +410,7 @@ func familyChild(spec string) {
 		if a := m1.TotalAlloc - m0.TotalAlloc; i == 0 || a < res.Alloc {
 			res.Alloc = a
 		}
-		o.Emitted = ""
+		o.Emitted = short(o.Emitted, 40)
 		res.Outcome = o
 	}
 	b, _ := json.Marshal(res)
@@ -439,14 +446,36 @@ func measure(name string, n int, ctxName string, reps int, deadline time.Duratio
 }
 
 func families(run *core.Run) {
-	maxN := 4096
+	minN, maxN := 1, 4096
+	if run.Tier == core.Quick {
+		minN = 128 // the quick tier measures the five largest sizes only; small sizes are covered by the other enumerations
+	}
 	report := map[string]any{}
+	var mu sync.Mutex
+	var wg sync.WaitGroup
+	sem := make(chan struct{}, 4) // four families at a time: time ratios are re-measured alone before they count
 	for _, f := range familyList {
 		for _, ctxName := range []string{"new", "default"} {
+			f, ctxName := f, ctxName
+			wg.Add(1)
+			sem <- struct{}{}
+			go func() {
+				defer func() { <-sem; wg.Done() }()
+				familyOne(run, f, ctxName, minN, maxN, report, &mu)
+			}()
+		}
+	}
+	wg.Wait()
+	run.Set("families", report)
+}
+
+func familyOne(run *core.Run, f family, ctxName string, minN, maxN int, report map[string]any, mu *sync.Mutex) {
+	{
+		{
 			var ns []int64
 			var allocs []uint64
 			var sizes []int
-			for n := 1; n <= maxN; n *= 2 {
+			for n := minN; n <= maxN; n *= 2 {
 				if run.TimeUp() {
 					run.Capped("deadline during nesting families")
 					return
@@ -508,11 +537,12 @@ func families(run *core.Run) {
 			}
 			if len(sizes) > 0 {
 				last := len(sizes) - 1
+				mu.Lock()
+				defer mu.Unlock()
 				report[f.name+"/"+ctxName] = fmt.Sprintf("n<=%d: %.1f ms, %d KiB at the largest; worst doubling ratio time x%.2f alloc x%.2f", sizes[last], float64(ns[last])/1e6, allocs[last]/1024, worstT, worstA)
 			}
 		}
 	}
-	run.Set("families", report)
 }
 
 func replay(run *core.Run) {
